@@ -669,6 +669,54 @@ def make_stub(C: Contract, raw_fn):
     return stub
 
 
+def _struct_eq(a, b, depth=0):
+    """structural equality of two values as a SymBool / bool, or None when their type is not one that is
+    compared field by field here (then the relation is left unchecked).  Numbers, sequences of the same
+    length, slices, and the repository's record types (XY family, BoundingBox, GeoBox: shape + affine + CRS)."""
+    num = lambda x: isinstance(x, (SymInt, SymReal)) or (isinstance(x, (int, float)) and not isinstance(x, bool))
+    if a is b:
+        return True
+    if num(a) and num(b):
+        return a == b
+    if a is None or b is None or isinstance(a, (str, bool)) or isinstance(b, (str, bool)):
+        return a == b if type(a) is type(b) else False
+    if depth > 4:
+        return None
+
+    def conj(pairs):
+        acc = True
+        for x, y in pairs:
+            r = _struct_eq(x, y, depth + 1)
+            if r is None:
+                return None
+            if r is False:
+                return False
+            if r is not True:
+                acc = r if acc is True else SymBool(z3.And(sym.to_bool_term(acc), sym.to_bool_term(r)))
+        return acc
+
+    if isinstance(a, (tuple, list)) and isinstance(b, (tuple, list)):
+        if len(a) != len(b):
+            return False
+        return conj(zip(a, b))
+    if isinstance(a, slice) and isinstance(b, slice):
+        return conj([(a.start, b.start), (a.stop, b.stop), (a.step, b.step)])
+    ta, tb = type(a).__name__, type(b).__name__
+    if ta != tb:
+        return None
+    if ta in ("XY", "Resolution", "Index2d", "Shape2d") and hasattr(a, "xy"):
+        return conj([(a.x, b.x), (a.y, b.y)])
+    if ta == "Affine":
+        return conj(zip(tuple(a)[:6], tuple(b)[:6]))
+    if ta == "BoundingBox":
+        r = conj(zip(tuple(a._box), tuple(b._box)))
+        return r if (r is None or r is False) else (r if a.crs is b.crs or a.crs == b.crs else False)
+    if ta == "GeoBox":
+        r = conj([(a.shape, b.shape), (a.affine, b.affine)])
+        return r if (r is None or r is False) else (r if a.crs is b.crs or a.crs == b.crs else False)
+    return None
+
+
 def shape_admits(shape, v, env):
     """True / False / SymBool: does value `v` lie in `shape`?  Only what a proof relied on is checked:
     numeric ranges, constants, derived relations, tuples thereof; object shapes are admitted as is
@@ -685,7 +733,8 @@ def shape_admits(shape, v, env):
             return True
         if num(want) and num(v):
             return v == want
-        return True
+        r = _struct_eq(v, want)
+        return True if r is None else r
     if isinstance(shape, (Int, Real)):
         if not num(v):
             return False if (v is None or isinstance(v, (str, tuple, list))) else True
@@ -739,6 +788,8 @@ def shapes_admit(C: Contract, bound, env):
     alts = []
     for cs in C.cases():
         acc = True
+        if any(p not in bound and p not in env for p in cs):
+            continue  # a case with ghost inputs this call site does not provide (another family size)
         for p, shape in cs.items():
             if p not in bound:
                 continue
